@@ -2,12 +2,14 @@ package store
 
 import (
 	"context"
+	"io"
 	"os"
 	"path/filepath"
 	"testing"
 	"time"
 
 	"github.com/rqlite/rqlite/v10/command/proto"
+	sql "github.com/rqlite/rqlite/v10/db"
 	"github.com/rqlite/rqlite/v10/snapshot"
 )
 
@@ -230,5 +232,159 @@ func TestVerifC04NativeStaleStagedWALLoad(t *testing.T) {
 	t.Logf("after restart      : %s", restored)
 	if live != restored {
 		t.Fatalf("C04-stale-staged-wal (LOAD): restored database differs\nlive:     %s\nrestored: %s", live, restored)
+	}
+}
+
+// Finding C04-install-keeps-staged-wal: full -> update foo=v1 -> incremental FSM snapshot released
+// without Persist (its compacted WAL {foo=v1} stays in wal-staging) -> update foo=v2 -> a snapshot
+// is INSTALLED the way hashicorp/raft's installSnapshot does it (SnapshotStore.Create, the stream
+// copied into the sink, sink.Close, SnapshotStore.Open, FSM.Restore): the image is the node's own
+// applied state (foo=v2) at its applied index -> unrelated update -> incremental snapshot (real
+// raft) -> restart from the snapshot store: foo=v1. fsmRestore never clears the staging directory.
+func TestVerifC04NativeInstallKeepsStagedWAL(t *testing.T) {
+	if os.Getenv("VERIF_NATIVE") == "" {
+		t.Skip()
+	}
+	s, done := verifC04Open(t)
+	defer done()
+
+	mustExecute(t, s, []string{
+		`CREATE TABLE foo (id INTEGER NOT NULL PRIMARY KEY, name TEXT)`,
+		`CREATE TABLE bar (id INTEGER NOT NULL PRIMARY KEY, name TEXT)`,
+		`INSERT INTO foo(id, name) VALUES(1, 'v0')`,
+		`INSERT INTO bar(id, name) VALUES(1, 'b0')`,
+	})
+	if err := s.Snapshot(0); err != nil { // full
+		t.Fatalf("snapshot 1: %s", err)
+	}
+	mustExecute(t, s, []string{`UPDATE foo SET name='v1' WHERE id=1`})
+	verifC04SkippedSnapshot(t, s) // incremental, not persisted: WAL{foo=v1} stays staged
+	if w, _ := s.StagedWALs(); len(w) != 1 {
+		t.Fatalf("expected 1 staged WAL, got %d", len(w))
+	}
+	mustExecute(t, s, []string{`UPDATE foo SET name='v2' WHERE id=1`})
+
+	// The image the leader would send for this index: the applied state.
+	img := filepath.Join(t.TempDir(), "leader-image.db")
+	if err := s.db.Backup(img, false); err != nil {
+		t.Fatalf("backup: %s", err)
+	}
+	if err := sql.EnsureWALMode(img); err != nil { // the database file of a snapshot is a WAL-mode file
+		t.Fatalf("WAL mode: %s", err)
+	}
+	cf := s.raft.GetConfiguration()
+	if err := cf.Error(); err != nil {
+		t.Fatal(err)
+	}
+	idx := s.raft.AppliedIndex()
+	sink, err := s.snapshotStore.Create(1, idx, s.raft.CurrentTerm(), cf.Configuration(), cf.Index(), nil)
+	if err != nil {
+		t.Fatalf("create sink: %s", err)
+	}
+	str, err := snapshot.NewSnapshotStreamer(img)
+	if err != nil {
+		t.Fatal(err)
+	}
+	if err := str.Open(); err != nil {
+		t.Fatal(err)
+	}
+	if _, err := io.Copy(sink, str); err != nil {
+		t.Fatalf("copy into sink: %s", err)
+	}
+	str.Close()
+	if err := sink.Close(); err != nil {
+		t.Fatalf("close sink: %s", err)
+	}
+	_, rc, err := s.snapshotStore.Open(sink.ID())
+	if err != nil {
+		t.Fatalf("open installed snapshot: %s", err)
+	}
+	if err := NewFSM(s).Restore(rc); err != nil {
+		t.Fatalf("restore: %s", err)
+	}
+	rc.Close()
+	if w, _ := s.StagedWALs(); len(w) != 0 {
+		t.Logf("staged WALs after the install: %d (the WAL cut from the replaced database is still there)", len(w))
+	}
+	if got := verifC04Query(t, s, `SELECT name FROM foo WHERE id=1`); got != `[{"columns":["name"],"types":["text"],"values":[["v2"]]}]` {
+		t.Fatalf("unexpected contents after the install: %s", got)
+	}
+
+	mustExecute(t, s, []string{`UPDATE bar SET name='b1' WHERE id=1`}) // unrelated page
+	nFull := s.numFullSnapshots
+	if err := s.Snapshot(0); err != nil {
+		t.Fatalf("snapshot after install: %s", err)
+	}
+	if s.numFullSnapshots != nFull {
+		t.Fatalf("expected an incremental snapshot after the install")
+	}
+	live := verifC04Query(t, s, `SELECT name FROM foo WHERE id=1`)
+	verifC04Restart(t, s)
+	restored := verifC04Query(t, s, `SELECT name FROM foo WHERE id=1`)
+	t.Logf("live before restart: %s", live)
+	t.Logf("after restart      : %s", restored)
+	if live != restored {
+		t.Fatalf("C04-install-keeps-staged-wal: database restored from the snapshot store differs from the applied state\nlive:     %s\nrestored: %s", live, restored)
+	}
+}
+
+// Finding C04-marker-before-close: full -> INSERT (not idempotent) -> hashicorp/raft's takeSnapshot
+// up to and including Persist (FSM.Snapshot checkpoints the WAL into the database file, Persist
+// runs the Finalizer = writes the clean_snapshot marker for that file) -> the process ends before
+// raft calls sink.Close -> start: the marker matches the database file, the restore is skipped,
+// raft re-applies the log entries after the newest PUBLISHED snapshot: the INSERT is applied twice.
+func TestVerifC04NativeMarkerBeforeClose(t *testing.T) {
+	if os.Getenv("VERIF_NATIVE") == "" {
+		t.Skip()
+	}
+	s, done := verifC04Open(t)
+	defer done()
+
+	mustExecute(t, s, []string{
+		`CREATE TABLE foo (id INTEGER NOT NULL PRIMARY KEY, name TEXT)`,
+		`INSERT INTO foo(name) VALUES('first')`,
+	})
+	if err := s.Snapshot(0); err != nil { // full
+		t.Fatalf("snapshot 1: %s", err)
+	}
+	mustExecute(t, s, []string{`INSERT INTO foo(name) VALUES('second')`})
+	live := verifC04Query(t, s, `SELECT count(*) FROM foo`)
+
+	f, err := NewFSM(s).Snapshot()
+	if err != nil {
+		t.Fatalf("fsm snapshot: %s", err)
+	}
+	cf := s.raft.GetConfiguration()
+	if err := cf.Error(); err != nil {
+		t.Fatal(err)
+	}
+	sink, err := s.snapshotStore.Create(1, s.raft.AppliedIndex(), s.raft.CurrentTerm(), cf.Configuration(), cf.Index(), nil)
+	if err != nil {
+		t.Fatalf("create sink: %s", err)
+	}
+	if err := f.Persist(sink); err != nil {
+		t.Fatalf("persist: %s", err)
+	}
+	// the process ends here: no sink.Close, no Release
+	skipped := s.numSnapshotsSkipped.Load()
+	if err := s.Close(true); err != nil {
+		t.Fatalf("close: %s", err)
+	}
+	if err := s.Open(); err != nil {
+		t.Fatalf("reopen: %s", err)
+	}
+	if _, err := s.WaitForLeader(10 * time.Second); err != nil {
+		t.Fatalf("leader after restart: %s", err)
+	}
+	if s.numSnapshotsSkipped.Load() == skipped {
+		t.Logf("the start did NOT skip the restore")
+	} else {
+		t.Logf("the start skipped the restore (clean_snapshot marker matched the database file)")
+	}
+	restored := verifC04Query(t, s, `SELECT count(*) FROM foo`)
+	t.Logf("live before the process ended: %s", live)
+	t.Logf("after restart                : %s", restored)
+	if live != restored {
+		t.Fatalf("C04-marker-before-close: database after restart differs from the applied state\nlive:     %s\nrestored: %s", live, restored)
 	}
 }
